@@ -174,6 +174,18 @@ namespace pika::detail {
         {
             old_state = expected;
 
+            // the value the failed exchange has seen may already carry a stop
+            // request (with the lock released again) or have lost its last source
+            if (stop_requested(old_state))
+            {
+                cb->execute();
+
+                cb->callback_finished_executing_.store(true, std::memory_order_release);
+
+                return false;
+            }
+            else if (!stop_possible(old_state)) { return false; }
+
             for (std::size_t k = 0; is_locked(old_state); ++k)
             {
                 pika::execution::this_thread::detail::yield_k(k, "stop_state::add_callback");
